@@ -134,16 +134,22 @@ class C07(Prop):
             logterm = eps + norm.logcdf(-eps * sigma - 1 / (2 * sigma))
             exact = norm.cdf(-eps * sigma + 1 / (2 * sigma)) - math.exp(logterm)
             out.append(('delta-upper-bounds-exact-gaussian', d >= exact - 1e-12 - 1e-9 * abs(exact), dict(delta=d, exact=exact)))
-            # optimum of the published Renyi-order bound over alpha >= 1.01 (the code's own lower limit), independent minimiser
+            # optimum of the published Renyi-order bound, independent minimiser.  The published optimum ranges over every order
+            # alpha > 1; an implementation may keep alpha away from 1 for numerical stability (the statement does not fix that floor),
+            # so the returned delta must lie between the optimum over alpha > 1 and the optimum over alpha >= 1.1: wherever the
+            # optimal order is at least 1.1 the two coincide and this is equality within 1e-6.
             def logb(a):
                 return (a - 1) * (a * rho - eps) + a * math.log1p(-1 / a) - math.log(a - 1)
             hi = (eps + 1) / (2 * rho) + 2
-            r = minimize_scalar(lambda t: logb(math.exp(t)), bounds=(math.log(1.01), math.log(hi + 10)), method='bounded',
-                                options=dict(xatol=1e-12))
-            best = min(logb(math.exp(r.x)), logb(1.01), logb(hi))
-            ref = min(1.0, math.exp(best)) if best < 700 else 1.0
-            ok = d <= ref * (1 + 1e-6) + 1e-300 and d >= ref * (1 - 1e-6) - 1e-300
-            out.append(('delta-equals-optimum-of-renyi-bound', ok, dict(delta=d, independent_optimum=ref)))
+
+            def opt(floor):
+                r = minimize_scalar(lambda t: logb(math.exp(t)), bounds=(math.log(floor), math.log(hi + 10)), method='bounded',
+                                    options=dict(xatol=1e-12))
+                best = min(logb(math.exp(r.x)), logb(floor), logb(hi))
+                return min(1.0, math.exp(best)) if best < 700 else 1.0
+            ref_lo, ref = opt(1.0 + 1e-9), opt(1.1)
+            ok = d <= ref * (1 + 1e-6) + 1e-300 and d >= ref_lo * (1 - 1e-6) - 1e-300
+            out.append(('delta-equals-optimum-of-renyi-bound', ok, dict(delta=d, independent_optimum_alpha_ge_1_1=ref, independent_optimum_alpha_gt_1=ref_lo)))
         elif k == 'rho':
             eps, delta = case['eps'], case['delta']
             r = m.cdp_rho(eps, delta)
